@@ -70,9 +70,25 @@ package erpc
 //@ ghost global writeAttempts int
 //@ ghost global writesOK int
 //@ ghost global lastWriteOK bool
-//@ trusted (*session).write
+// (trusted for its callers; under C07 its body is verified for the fail-fast clause:
+// on a session that is not OK - and not actively closing with a REPLY in hand -
+// nothing is written and the shared connection-closed status is returned)
+//@ ghost global socketWrites int
+//@ trusted socket.(*socket).WriteMessage in erpc.(*session).write
 //@   flags libframe
-//@   modifies as(message, type(*socket.message)).size, waitgroups
+//@   modifies as(message, type(*socket.message)).size, lockset, ghost.socketWrites
+//@   ghostset ghost.socketWrites = old(ghost.socketWrites) + 1
+//@   ensures sameLocks()
+//@ func (*session).write
+//@   property C07 C08
+//@   flags libframe frame-unchecked
+//@   requires?[wellformed-message] @C07 @C08 sentinelsIntact() && istype(message, type(*socket.message)) && as(message, type(*socket.message)) != nil
+//@   ensures[closed-session-fails-fast] @C07 !(old(s.status) == statusOk || (old(s.status) == statusActiveClosing && old(as(message, type(*socket.message)).mtype) == TypeReply)) ==> result.1 == statConnClosed && ghost.socketWrites == old(ghost.socketWrites)
+//@   ensures[at-most-one-socket-write] @C07 ghost.socketWrites <= old(ghost.socketWrites) + 1
+//@   ensures[reply-still-written-while-closing] @C08 old(s.status) == statusActiveClosing && old(as(message, type(*socket.message)).mtype) == TypeReply ==> ghost.socketWrites == old(ghost.socketWrites) + 1 || !statOK(result.1)
+//@   ensures[ok-means-written] @C07 @C08 statOK(result.1) ==> ghost.socketWrites == old(ghost.socketWrites) + 1
+//@   ensures[write-lock-released] @C07 sameLocks()
+//@   modifies as(message, type(*socket.message)).size, ghost.socketWrites
 //@   ghostset ghost.writeAttempts = old(ghost.writeAttempts) + 1
 //@   ghostset ghost.writesOK = old(ghost.writesOK) + (statOK(result.1) ? 1 : 0)
 //@   ghostset ghost.lastWriteOK = statOK(result.1)
@@ -85,7 +101,7 @@ package erpc
 //@   flags libframe
 //@   requires ctxShape(c) && c.sess != nil
 //@   let mo = as(c.output, type(*socket.message))
-//@   modifies mo.status, mo.body, mo.bodyCodec, mo.serviceMethod, mo.size, lockset, waitgroups, ghost.writeAttempts, ghost.writesOK, ghost.lastWriteOK
+//@   modifies mo.status, mo.body, mo.bodyCodec, mo.serviceMethod, mo.size, lockset, ghost.socketWrites, ghost.writeAttempts, ghost.writesOK, ghost.lastWriteOK
 //@   requires[reply-to-this-call] @C03 mo.seq == as(c.input, type(*socket.message)).seq && mo.mtype == TypeReply
 //@   ensures[one-write] @C03 ghost.writeAttempts == old(ghost.writeAttempts) + 1 && ghost.writesOK == old(ghost.writesOK) + (statOK(result) ? 1 : 0) && ghost.lastWriteOK == statOK(result)
 //@   requires[through-callers-pipe] @C12 mo.xferPipe.#inheritedFrom == as(c.input, type(*socket.message)).xferPipe
@@ -94,9 +110,10 @@ package erpc
 //@   ensures[ok-reply-untouched] @C04 statOK(stat) ==> mo.status == old(mo.status) && mo.body == old(mo.body) && mo.bodyCodec == old(mo.bodyCodec)
 //@   ensures[service-method-restored] mo.serviceMethod == old(mo.serviceMethod)
 
-//@ frameset ctxRun(c *handlerCtx) = fields(c), allof(type(socket.message)), allof(type(utils.Args)), allelems(type(utils.argsKV)), allof(type(xfer.XferPipe)), allelems(type(xfer.XferFilter)), allelems(type(byte)), lockset, waitgroups, ghost.trace, ghost.vetoed, ghost.handlerCalls
+//@ frameset ctxRun(c *handlerCtx) = ghost.socketWrites, fields(c), allof(type(socket.message)), allof(type(utils.Args)), allelems(type(utils.argsKV)), allof(type(xfer.XferPipe)), allelems(type(xfer.XferFilter)), allelems(type(byte)), lockset, waitgroups, ghost.trace, ghost.vetoed, ghost.handlerCalls
 //@ func (*handlerCtx).handleCall
-//@   property C12 C09 C03
+//@   property C12 C09 C03 C08
+//@   ensures[handler-count-untouched]! @C08 wgcount(addr(c.sess.graceCtxWaitGroup)) == old(wgcount(addr(c.sess.graceCtxWaitGroup)))
 //@   flags recover-scope libframe
 //@   modifies ctxRun(c), ghost.writeAttempts, ghost.writesOK, ghost.lastWriteOK, ghost.callRuns, as(c.output, type(*socket.message)).xferPipe.#inheritedFrom
 //@   requires @C03 sentinelsIntact()
@@ -487,7 +504,8 @@ package erpc
 //@   requires c.sess != nil && c.sess.peer != nil && c.pluginContainer == c.sess.peer.pluginContainer && c.pluginContainer != nil
 //@   ensures[route-container] c.handler != nil ==> c.pluginContainer == c.handler.pluginContainer
 //@ func (*handlerCtx).handlePush
-//@   property C09 C03
+//@   property C09 C03 C08
+//@   ensures[handler-count-untouched]! @C08 wgcount(addr(c.sess.graceCtxWaitGroup)) == old(wgcount(addr(c.sess.graceCtxWaitGroup)))
 //@   flags recover-scope libframe
 //@   modifies ctxRun(c), ghost.pushRuns
 //@   ensures[handler-at-most-once]! @C03 ghost.handlerCalls <= old(ghost.handlerCalls) + 1
@@ -509,7 +527,7 @@ package erpc
 //@   property C09 C02
 //@   flags recover-scope
 //@   params s serviceMethod args resultArg callCmdChan setting
-//@   requires @C02 sentinelsIntact()
+//@   requires @C02 sentinelsIntact() && sessShape(s)
 //@   ensures[failed-call-completed-once] @C02 result != nil && !statOK(as(result, type(*callCmd)).stat) ==> as(result, type(*callCmd)).#completions == 1
 //@   ensures[pending-call-not-completed] @C02 result != nil && statOK(as(result, type(*callCmd)).stat) ==> as(result, type(*callCmd)).#completions == 0
 //@   ensures[call-lock-released]! @C02 sameLocks()
@@ -662,9 +680,11 @@ package erpc
 
 // ---- C06: whatever is received, the reader ends in the disconnect routine -------
 //@ ghost global disconnectRuns int
+//@ ghost global postDisconnectRuns int
 //@ trusted (*pluginSingleContainer).postDisconnect
 //@   flags libframe
-//@   modifies allof(type(session)), allof(type(socket.socket)), lockset, waitgroups
+//@   modifies as(sess, type(*session)).sessionAge, as(sess, type(*session)).contextAge, ghost.postDisconnectRuns
+//@   ghostset ghost.postDisconnectRuns = old(ghost.postDisconnectRuns) + 1
 // disconnect handling. Trusted for its callers (frame assumed); under C02 its body is
 // verified for one thing: unless the session is already closed or closing
 // passively, the pending calls are swept (cancel loop) on every path, also when
@@ -677,7 +697,7 @@ package erpc
 //@ func (*session).readDisconnected
 //@   property C02
 //@   flags libframe frame-unchecked
-//@   requires @C02 sessShape(s) && s.callCmdMap != nil && s.peer.sessHub != nil
+//@   requires @C02 sessInv(s)
 //@   requires?[session-lock-free] @C02 !held(addr(s.lock))
 //@   modifies allof(type(session)), allof(type(socket.socket)), allof(type(callCmd)), lockset, waitgroups, channels, mapviews, ghost.callSweeps, ghost.disconnectRuns
 //@   ghostset ghost.disconnectRuns = old(ghost.disconnectRuns) + 1
@@ -702,6 +722,7 @@ package erpc
 // what the body-binding callback (handlerCtx.binding, installed as the input
 // message's NewBodyFunc) leaves behind, per frame type
 //@ spec fn sessShape(s *session) bool = s != nil && s.peer != nil && s.peer.pluginContainer != nil && s.socket != nil && as(s.socket, type(*socket.socket)) != nil
+//@ spec fn sessInv(s *session) bool = sessShape(s) && s.callCmdMap != nil && s.peer.sessHub != nil && s.peer.sessHub.sessions != nil
 //@ spec fn boundCtx(c *handlerCtx) bool = c.handler != nil ==> c.pluginContainer == c.handler.pluginContainer && c.pluginContainer != nil
 
 //@ func (*handlerCtx).binding
@@ -730,7 +751,7 @@ package erpc
 
 //@ frameset handleRun(c *handlerCtx) = ctxRun(c), allof(type(callCmd)), mapviews, ghost.writeAttempts, ghost.writesOK, ghost.lastWriteOK, ghost.callRuns, ghost.pushRuns, ghost.replyRuns, ghost.closeRequests, ghost.handleRuns
 //@ func (*session).startReadAndHandle$2
-//@   property C03 C02
+//@   property C03 C02 C08
 //@   flags libframe
 //@   spawnset ghost.pendingReplyLock = false
 //@   requires[reply-lock-handed-over] @C02 ctx.callCmd != nil ==> held(addr(ctx.callCmd.mu)) && ctx.callCmd.#completions == 0 && ctx.callCmd.sess != nil && ctx.callCmd.output != nil && ctx.callCmd.inputMeta != nil
@@ -740,9 +761,11 @@ package erpc
 //@   requires[pending-lock-is-this-reply] @C02 ghost.pendingReplyLock ==> ctx.callCmd != nil && as(ctx.input, type(*socket.message)).mtype == TypeReply && !notAllowed(ctx.stat)
 //@   requires boundCtx(ctx)
 //@   ensures[handled-once] ghost.handleRuns == old(ghost.handleRuns) + 1
+//@   ensures[handler-count-released-once]! @C08 wgcount(addr(ctx.sess.graceCtxWaitGroup)) == old(wgcount(addr(ctx.sess.graceCtxWaitGroup))) - 1
 
 //@ func (*handlerCtx).handle
-//@   property C03 C02
+//@   property C03 C02 C08
+//@   ensures[handler-count-untouched]! @C08 wgcount(addr(c.sess.graceCtxWaitGroup)) == old(wgcount(addr(c.sess.graceCtxWaitGroup)))
 //@   flags libframe
 //@   requires[reply-lock-handed-over] @C02 c.callCmd != nil ==> held(addr(c.callCmd.mu)) && c.callCmd.#completions == 0 && c.callCmd.sess != nil && c.callCmd.output != nil && c.callCmd.inputMeta != nil
 //@   modifies handleRun(c), ghost.pendingReplyLock, channels, as(c.output, type(*socket.message)).xferPipe.#inheritedFrom
@@ -777,6 +800,7 @@ package erpc
 //@   ensures[completed-once] c.#completions == 1
 //@   ensures[signalled] chanClosed(c.doneChan) && chanSent(c.callCmdChan) == old(chanSent(c.callCmdChan)) + 1
 //@   ensures[wait-group-released] wgcount(addr(c.sess.graceCallCmdWaitGroup)) == old(wgcount(addr(c.sess.graceCallCmdWaitGroup))) - 1
+//@   ensures[only-the-call-count] forall w int :: {wgcount(w)} w != addr(c.sess.graceCallCmdWaitGroup) ==> wgcount(w) == old(wgcount(w))
 
 //@ func (*callCmd).cancel
 //@   property C02
@@ -789,6 +813,7 @@ package erpc
 //@   ensures[cancelled-status] statCode(c.stat) == CodeConnClosed
 //@   ensures[signalled] chanClosed(c.doneChan) && chanSent(c.callCmdChan) == old(chanSent(c.callCmdChan)) + 1
 //@   ensures[wait-group-released] wgcount(addr(c.sess.graceCallCmdWaitGroup)) == old(wgcount(addr(c.sess.graceCallCmdWaitGroup))) - 1
+//@   ensures[only-the-call-count] forall w int :: {wgcount(w)} w != addr(c.sess.graceCallCmdWaitGroup) ==> wgcount(w) == old(wgcount(w))
 
 // disconnect: every call still registered is visited (sync.Map.Range: assumption)
 // and leaves the visit completed, cancelled here unless it already was
@@ -815,7 +840,8 @@ package erpc
 //@   ensures[no-call-no-lock] c.callCmd == nil ==> sameLocks()
 
 //@ func (*handlerCtx).handleReply
-//@   property C02 C04
+//@   property C02 C04 C08
+//@   ensures[handler-count-untouched]! @C08 wgcount(addr(c.sess.graceCtxWaitGroup)) == old(wgcount(addr(c.sess.graceCtxWaitGroup)))
 //@   flags recover-scope libframe
 //@   modifies ctxRun(c), allof(type(callCmd)), ghost.replyRuns, ghost.pendingReplyLock, channels, mapviews
 //@   requires ctxShape(c) && sessShape(c.sess) && sentinelsIntact()
@@ -835,7 +861,8 @@ package erpc
 //@   property C07
 //@   flags libframe frame-unchecked
 //@   spawnset ghost.closeRequests = old(ghost.closeRequests) + 1
-//@   requires @C07 sessShape(s) && s.peer.sessHub != nil && s.peer.sessHub.sessions != nil
+//@   requires? @C07 sessShape(s) && s.peer.sessHub != nil && s.peer.sessHub.sessions != nil
+//@   requires?[notify-flag-tracks-channel] @C07 (s.didCloseNotify == 0 <==> !chanClosed(s.closeNotifyCh)) && (s.didCloseNotify == 0 || s.didCloseNotify == 1)
 //@   modifies allof(type(session)), allof(type(socket.socket)), lockset, waitgroups, channels, mapviews
 //@   ensures[index-only-own-entry] @C07 forall h *SessionHub, k iface :: {h.sessions.#gkeys[k]} old(h.sessions.#gvals[k]) != iface(type(*session), s) ==> h.sessions.#gkeys[k] == old(h.sessions.#gkeys[k]) && h.sessions.#gvals[k] == old(h.sessions.#gvals[k])
 
@@ -846,7 +873,7 @@ package erpc
 //@   requires @C03 sentinelsIntact()
 //@   ensures[reader-ends-in-disconnect] ghost.disconnectRuns == old(ghost.disconnectRuns) + 1
 //@   ensures[reader-ends-in-disconnect-after-panic]! ghost.disconnectRuns == old(ghost.disconnectRuns) + 1
-//@   requires @C02 !ghost.pendingReplyLock && s.callCmdMap != nil && s.peer.sessHub != nil
+//@   requires @C02 !ghost.pendingReplyLock && sessInv(s)
 //@   ensures[no-orphan-reply-lock] @C02 !ghost.pendingReplyLock
 //@   loop 0: invariant[reply-lock-handed-on] @C02 !ghost.pendingReplyLock
 //@   loop 0: invariant[every-accepted-frame-dispatched] @C03 ghost.framesRead - old(ghost.framesRead) == (ghost.handleScheduled - old(ghost.handleScheduled)) + (ghost.handleRuns - old(ghost.handleRuns))
@@ -857,12 +884,44 @@ package erpc
 //@ spec fn hubHas(sh *SessionHub, id string, s *session) bool = sh.sessions.#gkeys[iface(type(string), id)] && sh.sessions.#gvals[iface(type(string), id)] == iface(type(*session), s)
 
 // closing a session touches, in any hub, only an index entry that maps to this session
+// C08: the connection is closed only after the running handlers and the
+// outstanding calls have been waited for
+//@ trusted socket.(*socket).Close in erpc.(*session).closeLocked
+//@   params sock
+//@   flags libframe
+//@   modifies allof(type(socket.socket)), allelems(type(byte)), lockset
+//@   requires[handlers-and-calls-drained] @C08 waited(addr(s.graceCtxWaitGroup)) && waited(addr(s.graceCallCmdWaitGroup))
+//@   ensures[locks-restored] sameLocks()
 //@ func (*session).closeLocked
-//@   property C07
+//@   property C07 C08
 //@   flags libframe frame-unchecked
-//@   requires sessShape(s) && s.peer.sessHub != nil && s.peer.sessHub.sessions != nil
+//@   requires?[session-wellformed] sessShape(s) && s.peer.sessHub != nil && s.peer.sessHub.sessions != nil
 //@   modifies allof(type(session)), allof(type(socket.socket)), lockset, waitgroups, channels, mapviews
 //@   ensures[index-only-own-entry] forall h *SessionHub, k iface :: {h.sessions.#gkeys[k]} old(h.sessions.#gvals[k]) != iface(type(*session), s) ==> h.sessions.#gkeys[k] == old(h.sessions.#gkeys[k]) && h.sessions.#gvals[k] == old(h.sessions.#gvals[k])
+//@   requires?[notify-flag-tracks-channel] (s.didCloseNotify == 0 <==> !chanClosed(s.closeNotifyCh)) && (s.didCloseNotify == 0 || s.didCloseNotify == 1)
+//@   ensures[closed-for-good] old(s.status) == statusOk || old(s.status) == statusPreparing ==> s.status == statusActiveClosed && ghost.postDisconnectRuns == old(ghost.postDisconnectRuns) + 1 && chanClosed(s.closeNotifyCh) && s.didCloseNotify == 1
+//@   ensures[no-op-unless-established] !(old(s.status) == statusOk || old(s.status) == statusPreparing) ==> s.status == old(s.status) && ghost.postDisconnectRuns == old(ghost.postDisconnectRuns) && s.didCloseNotify == old(s.didCloseNotify)
+//@   ensures[waits-for-handlers-and-calls] @C07 @C08 old(s.status) == statusOk || old(s.status) == statusPreparing ==> waited(addr(s.graceCtxWaitGroup)) && waited(addr(s.graceCallCmdWaitGroup))
+
+// status transitions by compare-and-swap: moves to `to` iff the current status is
+// one of the listed source states, otherwise leaves it alone
+//@ func (*session).tryChangeStatus
+//@   property C07
+//@   modifies s.status
+//@   ensures[moved-only-if-listed] result ==> (exists i int :: 0 <= i && i < len(fromList) && old(s.status) == old(fromList[i]))
+//@   ensures[moved-if-listed] !result ==> (forall i int :: {old(fromList[i])} 0 <= i && i < len(fromList) ==> old(s.status) != old(fromList[i]))
+//@   ensures[moved-to-target] result ==> s.status == to
+//@   ensures[else-untouched] !result ==> s.status == old(s.status)
+//@   loop 0: invariant[none-matched-so-far] $idx >= -1 && s.status == old(s.status) && (forall j int :: 0 <= j && j <= $idx ==> fromList[j] != old(s.status))
+
+// the close notification fires exactly once: the flag and the channel move together
+//@ func (*session).notifyClosed
+//@   property C07
+//@   flags safety
+//@   modifies s.didCloseNotify, channels
+//@   requires?[notify-flag-tracks-channel] (s.didCloseNotify == 0 <==> !chanClosed(s.closeNotifyCh)) && (s.didCloseNotify == 0 || s.didCloseNotify == 1)
+//@   ensures[notified] s.didCloseNotify == 1 && chanClosed(s.closeNotifyCh)
+//@   ensures[only-first-call-closes] old(s.didCloseNotify) == 1 ==> unchanged()
 
 //@ func (*SessionHub).delete
 //@   property C07
@@ -878,11 +937,11 @@ package erpc
 //@   ghostset self.#gvals = (old(self.#gkeys)[key] ? old(self.#gvals) : store(old(self.#gvals), key, value))
 //@   ghostset self.#gkeys = store(old(self.#gkeys), key, true)
 //@   ensures[loaded-or-stored] result.1 == old(self.#gkeys[key]) && (result.1 ==> result.0 == old(self.#gvals[key])) && (!result.1 ==> result.0 == value)
-//@   ensures[indexed-sessions-wellformed] result.1 ==> istype(result.0, type(*session)) && sessShape(as(result.0, type(*session))) && as(result.0, type(*session)).peer.sessHub != nil && as(result.0, type(*session)).peer.sessHub.sessions != nil
+//@   ensures[indexed-sessions-wellformed] result.1 ==> istype(result.0, type(*session)) && sessShape(as(result.0, type(*session))) && as(result.0, type(*session)).peer.sessHub != nil && as(result.0, type(*session)).peer.sessHub.sessions != nil && (as(result.0, type(*session)).didCloseNotify == 0 <==> !chanClosed(as(result.0, type(*session)).closeNotifyCh)) && (as(result.0, type(*session)).didCloseNotify == 0 || as(result.0, type(*session)).didCloseNotify == 1)
 //@ func (*SessionHub).set
 //@   property C07
 //@   flags libframe frame-unchecked
-//@   requires sh.sessions != nil && sess != nil && sessShape(sess) && sess.peer.sessHub == sh
+//@   requires?[session-wellformed] sh.sessions != nil && sess != nil && sessShape(sess) && sess.peer.sessHub == sh
 //@   modifies allof(type(session)), allof(type(socket.socket)), lockset, waitgroups, channels, mapviews
 //@   ensures[indexed-under-current-id] hubHas(sh, old(sessID(sess)), sess)
 
